@@ -219,7 +219,7 @@ def model_events(answer, default_styles):
             elif k == 'cdataOpen': chars(u'/*' + u'*/\n')
             elif k == 'cdataClose': chars(u'/*' + u'*/\n')
             elif k == 'defaultStyles': chars(default_styles)
-            elif k == 'css': chars(dec_str(f[2]))
+            elif k == 'css': chars(dec_str(f[2]).replace(u']]]]><![CDATA[>', u']]>'))   # what a parser reads from the split sections
             else: ev.append(('?', tok))
         else:
             ev.append(('?', tok))
@@ -461,9 +461,6 @@ def compare(chk, spec, res, key, answer, default_styles):
         chk.corr_diff(case, r[1][max(0, k - 60):k + 60], rendered[max(0, k - 60):k + 60], '%s output string, first difference at %d' % (key, k))
         return
     if key != 'm':
-        if key == 'x1' and u']]>' in (split_css(r[1], default_styles) or u''):
-            chk.count('corr_tokens_skipped_css_cdata_end')     # finding KF-C18-4: the CDATA section ends inside the style sheet
-            return
         try:
             ev = merge_chars(xhtml_events(r[1]))
         except xml.parsers.expat.ExpatError:
@@ -562,6 +559,9 @@ CORPUS = [
     ('space-after-text', D([P(T(u'k1z'), ['s', 3], T(u'k2z'))])),
     ('css-cdata-end', D([['p', u'a]]><b>&', [T(u'k1z')]]], styles=[{'fam': 'paragraph', 'name': u'a]]><b>&', 'auto': False, 'parent': None,
                                                                   'bold': True, 'italic': False, 'color': None, 'margin': None}])),
+    ('css-cdata-end-2', D([['p', u'n]]]>x', [T(u'k1z')]], ['p', u']]>]]>', [T(u'k2z')]]],
+                          styles=[{'fam': 'paragraph', 'name': u'n]]]>x', 'auto': False, 'parent': None, 'bold': True, 'italic': False, 'color': u']]>]]><b>', 'margin': None},
+                                  {'fam': 'paragraph', 'name': u']]>]]>', 'auto': True, 'parent': None, 'bold': False, 'italic': True, 'color': u'a]]]>', 'margin': None}])),
     ('moin-note-second-paragraph', D([P(T(u'k1z'), ['note', 'footnote', u'1', [P(T(u'k2z')), P(T(u'k3z'))]], T(u'k4z'))])),
     ('moin-table-in-cell', D([['table', u't', None, [[None, None]], [[None, [['cell', {'rs': None, 'cs': None, 'style': None},
         [['table', u'u', None, [[None, None]], [[None, [['cell', {'rs': None, 'cs': None, 'style': None}, [P(T(u'k1z'))]]]]]]]]]]]]])),
